@@ -322,7 +322,7 @@ class VM(Machine):
         n = 0
         while True:
             c = self.ev(st.test, fr)
-            if isinstance(c, SV):
+            if isinstance(c, SV) or (isinstance(c, Opaque) and self.loop_spec(fr, st) is not None):
                 spec = self.loop_spec(fr, st)
                 if spec is None:
                     raise Unsupported(f"while loop with symbolic condition and no invariant (line {st.lineno})")
@@ -525,6 +525,9 @@ class VM(Machine):
             return SBool(ctx.fresh_bool(f"hv_{what}"))
         if isinstance(old, (int, SInt)):
             return SInt(ctx.fresh_int(f"hv_{what}"))
+        hook = self.spec.opaque_hooks.get("havoc_container")
+        if hook and isinstance(old, (PyList, PySet, PyDict, Opaque)):
+            return hook(self, old, what)
         return Havoc(what)
 
     def havoc(self, fr, body_nodes, spec, name):
